@@ -164,6 +164,22 @@ Example C02_example_add0 :
   well_behaved (tr cf) = true /\ c02_ok (tr cf) = true.
 Proof. vm_compute. repeat split; reflexivity. Qed.
 
+(* C02_rest carries no side condition on the sign of the count.  A history OUTSIDE the client
+   programs of C01 (well_behaved = false: the decrement overtakes the increment that covers it):
+   after Add(-1) the count is -1 and a Wait gets the open channel 1; the Add(+1) that brings the sum
+   back to zero FROM BELOW closes it.  The harness runs such histories on the real code with -neg
+   and judges them with WGJudge.c02_judge_unc. *)
+Example C02_example_negative_excursion :
+  let progs := [[CAdd (-1)]; [CWait]; [CAdd 1]] in
+  let mid := wg_exec progs [0; 0; 0; 1; 1]%nat in
+  let cf := wg_exec progs [0; 0; 0; 1; 1; 2; 2; 2; 2]%nat in
+  well_behaved (tr cf) = false /\
+  adds_in_flight (tr mid) = [] /\ sum_deltas (tr mid) = (-1)%Z /\ cnt (sh mid) = (-1)%Z /\
+  handed_out (tr mid) = [1%nat] /\ closed (sh mid) = [0%nat] /\
+  adds_in_flight (tr cf) = [] /\ sum_deltas (tr cf) = 0%Z /\ cnt (sh cf) = 0%Z /\
+  closed (sh cf) = [1%nat; 0%nat] /\ c02_ok (tr cf) = true.
+Proof. vm_compute. repeat split; reflexivity. Qed.
+
 (* the pinned code violates the statement: after a schedule of 2 goroutines every Add has
    returned, Count() = sum of deltas = 1, yet the closed sentinel is installed and a fresh Wait
    run solo is still inside Wait after any number of steps *)
